@@ -36,11 +36,12 @@ FOREIGN Gen_Compress mode "foreign" (seed C04-20): the compressed forms OTHER en
         harness: Msg.Unpack must accept each form and read the vector's message.  Keys compress/input-rejected|input-misread|
         input-panic:<TYPE of the last record>:<strategy>.
 SPELL   Gen_Compress mode "spell" (seed C04-21): "names differing only in ... escaping".  Ten names under z. whose first label holds a
-        dot (a.b as ONE label, next to the two labels a, b), a backslash (x\y next to xy), a space, a quote, octet 200, a lone
+        dot (a.b as ONE label, next to the two labels a, b), a backslash (x\\y next to xy), a space, a quote, octet 200, a lone
         backslash, a lone dot; question / NS owner / two A owners, each position in one of four SPELLINGS of the same labels (field sp;
-        harness spell(): 0 canonical, 1 \097 for a, 2 every escape in decimal -- \046, \092, \034 --, 3 every octet \DDD), 1600
+        harness spell(): 0 canonical, 1 \\097 for a, 2 every escape in decimal -- \\046, \\092, \\034 --, 3 every octet \\DDD), 1600
         combinations (quick: 400 by seed) -> packBoth -> Trace_Compress (transparency: the names of the compressed octets are the
-        vector's), OWN, BUF.  The record zoo has the decimal spellings a\046b.c.example.org. / x\092y.example.org. among its owners.
+        vector's), OWN, BUF.  (The record zoo keeps to canonical spellings: its events are re-executed from their own octets, which
+        carry no spelling.)
 OVERLONG Gen_Compress mode "overlong" (seed C04-19): names of 254, 255, 256, 257, 300 octets, 127 / 128 labels, a 64-octet label in
         a long and in a short name, whose tail (193 / 201 / 3 octets) is already in the message -- as question name or first seen in NS
         RDATA -- at each kind of position (second question, owner, NS / MX / CNAME target, SRV target).  The well-formed ones (254,
@@ -49,7 +50,7 @@ OVERLONG Gen_Compress mode "overlong" (seed C04-19): names of 254, 255, 256, 257
         it refuses without (the statement compares the two packings of any message; octets from one of them only are not "exactly the
         same message", and the name they hold expands beyond 255 octets).  Key compress/packs-what-uncompressed-refuses:overlong:
         <question|owner|rdata:TYPE>.  (A message Pack() takes WITHOUT compression against the specification is C01 / C03's: counted.)
-CHAIN   Compress!JudgeStreamsH = JudgeStreams + the chain clause: no name is read through more than MaxPtrHops = MaxName \div 2 = 127
+CHAIN   Compress!JudgeStreamsH = JudgeStreams + the chain clause: no name is read through more than MaxPtrHops = MaxName \\div 2 = 127
         pointers (a name has at most 127 labels and a pointer of a packer that points at first occurrences is followed by a label:
         MC_Compress invariant Chains shows that Compress!Hops, read off the stream hints, IS the number of pointers Names!DecName follows,
         that PackImpl never needs more hops than the name has labels and never points at a pointer).  Every single pointer of a long
@@ -116,9 +117,9 @@ Mutants (checks/mutants/C04/*.diff; each `VERIF_REPO=/tmp/comp-x bin/check C04 q
                             overlong: compress/packs-what-uncompressed-refuses:overlong:question|owner|rdata:NS|MX|CNAME
   unpack-refuses-pointer-to-pointer.diff  UnpackDomainName refuses a pointer whose target is a pointer (the class of seed C04-20) -> replay
                             foreign: compress/input-rejected:<TYPE>:latest|latest-whole-anyrdata|latest-rootptr
-  ddd-dot-rescanned-when-compressing.diff  with a compression map, the octet decoded from \046 is looked at again and ends the label (the
+  ddd-dot-rescanned-when-compressing.diff  with a compression map, the octet decoded from \\046 is looked at again and ends the label (the
                             class of seed C04-21) -> replay spell: Trace_Compress compress/not-transparent:*, compress/own-output-misread:spell
-Seeds of round 7: C04-19 -> OVERLONG; C04-20 -> FOREIGN; C04-21 -> SPELL (also TV: zoo owners a\046b.c.example.org., x\092y.example.org.).
+Seeds of round 7: C04-19 -> OVERLONG; C04-20 -> FOREIGN; C04-21 -> SPELL.
 Non-vacuity of MC_Compress (run by hand, each invariant must be violated): NoPointerEver, NoLimitCrossed, AlwaysImpl, NoDeviationDecodes,
         NoChain, NoDegenerate.
 """
